@@ -395,6 +395,10 @@ class Interp:
             return Leaf("fall", ("sinkok",), env)
         if k == "loop":
             raise Unanalysable("`loop`/`while` at line %s" % e["sp"][0])
+        if k in ("call", "mcall"):
+            ap = self.appender_call(e, env)
+            if ap is not None:
+                return ap
         if k == "mcall" and self.is_buf_mutation(e, env):
             return self.exec_mutation(e, env)
         if k == "assign":
@@ -412,6 +416,76 @@ class Interp:
             return Leaf("fall", UNIT, env)
         # plain expression
         return Leaf("fall", self.ev(e, env), env)
+
+    def tracked_mut_arg(self, a, env):
+        """local id of the tracked sequence if HIR argument `a` is `&mut <tracked local>` (or a `&mut` alias of one)"""
+        r = a
+        while r["k"] in ("droptemps", "type"):
+            r = r["a"]
+        if r["k"] == "addrof" and r.get("mut"):
+            r = r["a"]
+            while r["k"] in ("droptemps", "type", "deref"):
+                r = r["a"]
+            if r["k"] == "path" and r.get("res") == "local":
+                v = env.get(r["id"], ("x",))
+                if v[0] in SEQ:
+                    return r["id"]
+                if v[0] == "alias" and env.get(v[1], ("x",))[0] in SEQ:
+                    return v[1]
+            return None
+        if r["k"] == "path" and r.get("res") == "local" and env.get(r["id"], ("x",))[0] == "alias" and env.get(env[r["id"]][1], ("x",))[0] in SEQ \
+                and str(r.get("ty", r.get("aty", ""))).startswith("&mut"):
+            return env[r["id"]][1]
+        return None
+
+    def appender_call(self, e, env):
+        """`helper(&mut out, ..)` where `out` is a tracked buffer/list and `helper` is a local function: the helper is interpreted with
+        a fresh empty sequence for that parameter, and what it appended is appended to the caller's sequence.  None if not of that form."""
+        if e["k"] == "call":
+            f = e["f"]
+            if f.get("k") != "path":
+                return None
+            name = f.get("callee") or f.get("def")
+            hargs = list(e["args"])
+        else:
+            name = e.get("callee") or e.get("decl")
+            hargs = [e["recv"]] + list(e["args"])
+        if not name or name not in self.hir or (self.sink_helper and name == self.sink_helper):
+            return None
+        tracked = {i: self.tracked_mut_arg(a, env) for i, a in enumerate(hargs)}
+        tracked = {i: v for i, v in tracked.items() if v is not None}
+        if not tracked:
+            return None
+        h = self.hir[name]
+        if len(h["params"]) != len(hargs) or self.depth > 12:
+            return None
+        cenv = {}
+        pids = {}
+        for i, p in enumerate(h["params"]):
+            if i in tracked:
+                pat = p["pat"]
+                if pat["k"] != "bind":
+                    raise Unanalysable("appender helper %s destructures its buffer parameter" % name)
+                cenv[pat["id"]] = (env[tracked[i]][0], [])
+                pids[i] = pat["id"]
+            else:
+                self.bind(p["pat"], self.ev(hargs[i], env), cenv)
+        self.depth += 1
+        try:
+            tree = self.exec_expr_tree(h["body"], cenv)
+            fin = self.collapse_env(tree, allowed=("fall", "ret"))
+            try:
+                val = self.collapse_value(tree)
+            except Exception:
+                val = UNIT
+        finally:
+            self.depth -= 1
+        for i, vid in tracked.items():
+            added = fin.get(pids[i])
+            if added is None or added[0] != env[vid][0]:
+                raise Unanalysable("appender helper %s replaces its buffer parameter" % name)
+            env[vid] = (env[vid][0], env[vid][1] + list(added[1]))
+        return Leaf("fall", val, env)
 
     def okval(self, v):
         """value of `v?` on the success path"""
@@ -592,9 +666,13 @@ class Interp:
         self.loopn += 1
         lid = "L%d" % self.loopn
         base, enumerated = coll, False
-        while base[0] == "mcall" and base[1].split("::")[-1] in ("iter", "into_iter", "enumerate", "copied", "cloned"):
+        filters = []
+        while base[0] == "mcall" and (base[1].split("::")[-1] in ("iter", "into_iter", "enumerate", "copied", "cloned") or
+                                      (base[1].split("::")[-1] == "filter" and not enumerated and len(base[3]) == 1 and base[3][0][0] == "lambda" and base[3][0][2] != ("?",))):
             if base[1].endswith("enumerate"):
                 enumerated = True
+            if base[1].split("::")[-1] == "filter":
+                filters.append(base[3][0])      # `for x in it.filter(p) { B }` is `for x in it { if p(&x) { B } }`
             base = base[2]
         elem = ("elem", base, lid)
         if enumerated:
@@ -616,7 +694,13 @@ class Interp:
             if app[0] != v[0]:
                 raise Unanalysable("sequence rebound inside loop")
             if app[1]:
-                env[k_] = (v[0], v[1] + [("rep", base, lid, app[1])])
+                body_segs = app[1]
+                for lam in filters:
+                    c = subst_lid(lam[2], lam[1], lid)
+                    body_segs = [("alt", c[2], [], body_segs)] if c[0] == "un" and c[1] == "Not" else [("alt", c, body_segs, [])]
+                env[k_] = (v[0], v[1] + [("rep", base, lid, body_segs)])
+        if filters and scal_before:
+            raise Unanalysable("filtered loop updates scalars")
         for k_, v in scal_before.items():
             if k_ in en2 and en2[k_] != ("acc", k_, lid):
                 step = en2[k_]
@@ -828,6 +912,18 @@ class Interp:
             if e.get("res") == "def":
                 if "const_bits" in e:
                     return lit(e["const_bits"])
+                c = self.u.consts.get(e.get("def"))
+                if c is not None and "init" in c and e.get("defkind", "").startswith(("Const", "AssocConst")) and self.depth < 30:
+                    # a constant without a scalar value (array, tuple, byte string): the value of its initialiser
+                    self.depth += 1
+                    try:
+                        v = self.ev(c["init"], {})
+                    except Unanalysable:
+                        v = None
+                    finally:
+                        self.depth -= 1
+                    if v is not None and v[0] not in ("path?", "call", "callv"):
+                        return v
                 if e.get("defkind", "").startswith("Ctor"):
                     if e["def"].endswith("::None") or e["def"].endswith("prelude::v1::None"):
                         return ("none",)
@@ -1200,6 +1296,15 @@ class Lin:
         for k, v in self.terms.items():
             parts.append(("%d*" % v if v != 1 else "") + show(k))
         return " + ".join(parts)
+
+
+def subst_lid(x, old, new):
+    """rename loop id `old` to `new` inside a value (the element of a closure summary becomes the element of the enclosing loop)"""
+    if isinstance(x, tuple):
+        return tuple(subst_lid(y, old, new) for y in x)
+    if isinstance(x, list):
+        return [subst_lid(y, old, new) for y in x]
+    return new if x == old else x
 
 
 def list_shape(segs):
